@@ -65,6 +65,7 @@ package certurl
 //@   requires enc != nil && enc.w != nil && !failed(enc.w) && ac.Cert != nil
 //@   ensures[write-failure-surfaces] failed(enc.w) ==> result != nil
 //@   ensures accepted(enc.w) >= old(accepted(enc.w)) && accepted(enc.w) - wrapped(enc.w) == old(accepted(enc.w) - wrapped(enc.w))
+//@   assert[one-entry-per-present-part] before "return enc.EncodeMap(mes)" :: len(mes) == 1 + (ac.OCSPResponse != nil ? 1 : 0) + (ac.SCTList != nil ? 1 : 0)
 //@   assigns accepted(enc.w), failed(enc.w), content(enc.w), wrapped(enc.w)
 
 // Reading: each element has a parsed certificate whose Raw is the encoded
